@@ -32,6 +32,19 @@ CHECKS = {
         'classes, lt never raises, trichotomy, gt==swapped lt, lt transitivity and sort validity checked on every pair/triple. Exploration.',
         'NaN excluded; tuples restricted to one comparable primitive kind per case (the stated quantifier); hash law only where pg.hash is defined.',
         'DESIGN.md section 3 C06'),
+    'C09': (
+        'model-based stateful PBT: generated mutation histories over trees of logging receivers; event log compared with the '
+        'pre/post state of the forest; derived facts compared with a freshly constructed deep copy; exhaustive single-call sub-domain',
+        'Trees mix objects overriding _on_change, objects whose _on_bound is counted and Dict/List with or without onchange_callback '
+        '(generated subscription mask), holding partial objects and placeholders. After every call of the full mutating API '
+        '(incl. batched rebind at mixed depths, rebind by function, in-place operators, clear/sort/reverse/popitem, notify-off scopes, '
+        'skip_notification) the delivered events are checked for: only ancestors of written containers, every subscribed ancestor of a '
+        'changed container, at most once, children before parents, relative keys, true old/new values, complete locations, agreement '
+        'between receivers; nothing delivered when disabled. is_partial/sym_missing/sym_nondefault/sym_puresymbolic/is_deterministic '
+        'of every node are compared with a fresh deep copy after every step. One fixed tree x every op x every applicable node is '
+        'enumerated exhaustively. Exploration, not proof.',
+        'Index convention of payloads is only pinned for single-kind list events; freshness not asserted after notify-off calls; events of failing calls unconstrained.',
+        'DESIGN.md section 3 C09'),
     'C10': (
         'PBT with reference models (key lists, Python sets, reference tree walk) + exhaustive small key alphabet',
         'Three generated case kinds: key sequences over hostile keys (dots, brackets, digits-only strings, negative ints, unicode) '
